@@ -16,47 +16,47 @@ From NV Require Proofs.Server_inv Proofs.Server_basic Proofs.Server_p1 Proofs.Se
 Import ListNotations.
 
 (* ---------------- C07 ---------------- *)
-Lemma at_most_once : forall ip6 handler mw up ip fp evs,
-  Spec.C07.at_most_once (run ip6 handler mw up ip fp init evs) = true.
+Lemma at_most_once : forall ip6 handler mw up ucf ip fp evs,
+  Spec.C07.at_most_once (run ip6 handler mw up ucf ip fp init evs) = true.
 Proof. intros. apply Server_p1.at_most_once_gen. Qed.
 
-Lemma trailing_ignored : forall ip6 handler mw up ip fp s d,
+Lemma trailing_ignored : forall ip6 handler mw up ucf ip fp s d,
   line_rcvd s = true -> await_titan s = false ->
-  data_received ip6 handler mw up ip fp s d = (set_buf s (buf s ++ d) true, []).
+  data_received ip6 handler mw up ucf ip fp s d = (set_buf s (buf s ++ d) true, []).
 Proof. intros. apply Server_p1.trailing_ignored_gen; assumption. Qed.
 
-Lemma refines : forall ip6 handler mw up ip fp (reads : list (list str)),
-  flat (run ip6 handler mw up ip fp init (map ERead reads)) =
-  flat (run ip6 handler mw up ip fp init [ERead [concat (concat reads)]]).
+Lemma refines : forall ip6 handler mw up ucf ip fp (reads : list (list str)),
+  flat (run ip6 handler mw up ucf ip fp init (map ERead reads)) =
+  flat (run ip6 handler mw up ucf ip fp init [ERead [concat (concat reads)]]).
 Proof. exact Server_refines.refines. Qed.
 
 (* ---------------- C01 ---------------- *)
-Lemma single_response : forall ip6 handler mw up ip fp evs,
-  Spec.C01.clause_single (run ip6 handler mw up ip fp init evs) = true.
+Lemma single_response : forall ip6 handler mw up ucf ip fp evs,
+  Spec.C01.clause_single (run ip6 handler mw up ucf ip fp init evs) = true.
 Proof. intros. apply Server_p1.single_response_gen. Qed.
 
-Lemma shape : forall ip6 handler mw up ip fp evs,
-  Spec.C01.clause_shape (run ip6 handler mw up ip fp init evs) = true.
+Lemma shape : forall ip6 handler mw up ucf ip fp evs,
+  Spec.C01.clause_shape (run ip6 handler mw up ucf ip fp init evs) = true.
 Proof. intros. apply Server_c01.shape_gen. Qed.
 
 Lemma faithful : forall ip6 c evs,
   Spec.C01.clause_faithful c evs
-    (run ip6 (fun _ => c_hres c) (c_mw c) (c_upload c) (c_ip c) (c_fp c) init evs) = true.
+    (run ip6 (fun _ => c_hres c) (c_mw c) (c_upload c) (c_upfail c) (c_ip c) (c_fp c) init evs) = true.
 Proof. intros. apply Server_c01.faithful_gen. Qed.
 
-Lemma silent_after_lost : forall ip6 handler mw up ip fp evs,
-  Spec.C01.clause_silent_after_lost evs (run ip6 handler mw up ip fp init evs) false = true.
+Lemma silent_after_lost : forall ip6 handler mw up ucf ip fp evs,
+  Spec.C01.clause_silent_after_lost evs (run ip6 handler mw up ucf ip fp init evs) false = true.
 Proof. intros. apply Server_p1.silent_after_lost_gen. Qed.
 
 (* C01_obligation is false when the request line is outside the URL model: nothing is sent. *)
 Lemma obligation_partial : forall ip6 c evs,
   existsb (fun a => match a with AOutOfModel => true | _ => false end)
-          (flat (run ip6 (fun _ => c_hres c) (c_mw c) (c_upload c) (c_ip c) (c_fp c) init evs)) = false ->
+          (flat (run ip6 (fun _ => c_hres c) (c_mw c) (c_upload c) (c_upfail c) (c_ip c) (c_fp c) init evs)) = false ->
   Spec.C01.clause_obligation ip6 c evs
-    (run ip6 (fun _ => c_hres c) (c_mw c) (c_upload c) (c_ip c) (c_fp c) init evs) = true.
+    (run ip6 (fun _ => c_hres c) (c_mw c) (c_upload c) (c_upfail c) (c_ip c) (c_fp c) init evs) = true.
 Proof.
   intros ip6 c evs.
-  exact (Server_oblig.obligation_partial_gen ip6 (fun _ => c_hres c) (c_mw c) (c_upload c) (c_ip c) (c_fp c)
+  exact (Server_oblig.obligation_partial_gen ip6 (fun _ => c_hres c) (c_mw c) (c_upload c) (c_upfail c) (c_ip c) (c_fp c)
            c eq_refl evs).
 Qed.
 
@@ -65,50 +65,50 @@ Qed.
    Props/C04.v applies it to one argument too many. *)
 Lemma gate : forall ip6 c evs,
   Spec.C04.gate c (Spec.C04.expected_url ip6 (stream evs)) evs
-    (run ip6 (fun _ => c_hres c) (c_mw c) (c_upload c) (c_ip c) (c_fp c) init evs) [] false = true.
+    (run ip6 (fun _ => c_hres c) (c_mw c) (c_upload c) (c_upfail c) (c_ip c) (c_fp c) init evs) [] false = true.
 Proof. exact Server_gate.gate_gen. Qed.
 
-Lemma no_invocation_without_allow : forall ip6 handler up ip fp evs,
+Lemma no_invocation_without_allow : forall ip6 handler up ucf ip fp evs,
   (forall i t, ~ In (EDone i (OMw true t)) evs) ->
-  existsb is_invocation (flat (run ip6 handler true up ip fp init evs)) = false.
+  existsb is_invocation (flat (run ip6 handler true up ucf ip fp init evs)) = false.
 Proof.
-  intros ip6 handler up ip fp evs H. apply Server_basic.existsb_count.
-  apply (Server_p1.na_run ip6 handler true up ip fp eq_refl evs init H).
+  intros ip6 handler up ucf ip fp evs H. apply Server_basic.existsb_count.
+  apply (Server_p1.na_run ip6 handler true up ucf ip fp eq_refl evs init H).
 Qed.
 
 Lemma refusal : forall ip6 c evs, c_mw c = true ->
-  valid_reads evs (run ip6 (fun _ => c_hres c) (c_mw c) (c_upload c) (c_ip c) (c_fp c) init evs) false = true ->
+  valid_reads evs (run ip6 (fun _ => c_hres c) (c_mw c) (c_upload c) (c_upfail c) (c_ip c) (c_fp c) init evs) false = true ->
   Spec.C04.refusal c evs
-    (run ip6 (fun _ => c_hres c) (c_mw c) (c_upload c) (c_ip c) (c_fp c) init evs) = true.
+    (run ip6 (fun _ => c_hres c) (c_mw c) (c_upload c) (c_upfail c) (c_ip c) (c_fp c) init evs) = true.
 Proof.
   intros ip6 c evs MW V.
-  exact (Server_refusal.refusal_run ip6 (fun _ => c_hres c) (c_mw c) (c_upload c) (c_ip c) (c_fp c) MW c evs V).
+  exact (Server_refusal.refusal_run ip6 (fun _ => c_hres c) (c_mw c) (c_upload c) (c_upfail c) (c_ip c) (c_fp c) MW c evs V).
 Qed.
 
 (* ---------------- C15 ---------------- *)
-Lemma not_armed_while_answering : forall ip6 handler mw up ip fp evs,
-  let s := final ip6 handler mw up ip fp init evs in
+Lemma not_armed_while_answering : forall ip6 handler mw up ucf ip fp evs,
+  let s := final ip6 handler mw up ucf ip fp init evs in
   pending s <> [] -> timer s <> TArmed.
-Proof. intros ip6 handler mw up ip fp evs. apply Server_p1.not_armed_while_answering_gen. Qed.
+Proof. intros ip6 handler mw up ucf ip fp evs. apply Server_p1.not_armed_while_answering_gen. Qed.
 
-Lemma timeout_response : forall ip6 handler mw up ip fp evs,
-  let s := final ip6 handler mw up ip fp init evs in
+Lemma timeout_response : forall ip6 handler mw up ucf ip fp evs,
+  let s := final ip6 handler mw up ucf ip fp init evs in
   timer s = TArmed -> sent s = false ->
-  snd (step ip6 handler mw up ip fp s ETimer) = [AWrite timeout_line; AClose].
-Proof. intros ip6 handler mw up ip fp evs. apply Server_p1.timeout_response_gen. Qed.
+  snd (step ip6 handler mw up ucf ip fp s ETimer) = [AWrite timeout_line; AClose].
+Proof. intros ip6 handler mw up ucf ip fp evs. apply Server_p1.timeout_response_gen. Qed.
 
 (* C15_no_stuck is false for request lines outside the URL model (AOutOfModel): the timer is
    cancelled, nothing is pending and nothing is sent.  It holds on every other schedule. *)
-Lemma no_stuck_partial : forall ip6 handler mw up ip fp evs,
+Lemma no_stuck_partial : forall ip6 handler mw up ucf ip fp evs,
   has_lost evs = false ->
   existsb (fun a => match a with AOutOfModel => true | _ => false end)
-          (flat (run ip6 handler mw up ip fp init evs)) = false ->
-  let s := final ip6 handler mw up ip fp init evs in
+          (flat (run ip6 handler mw up ucf ip fp init evs)) = false ->
+  let s := final ip6 handler mw up ucf ip fp init evs in
   closing s = true \/ timer s = TArmed \/ pending s <> [].
-Proof. intros ip6 handler mw up ip fp evs. apply Server_p1.no_stuck_partial_gen. Qed.
+Proof. intros ip6 handler mw up ucf ip fp evs. apply Server_p1.no_stuck_partial_gen. Qed.
 
-Lemma c15_ok_partial : forall ip6 handler mw up ip fp evs,
+Lemma c15_ok_partial : forall ip6 handler mw up ucf ip fp evs,
   existsb (fun a => match a with AOutOfModel => true | _ => false end)
-          (flat (run ip6 handler mw up ip fp init evs)) = false ->
-  Spec.C15.ok evs (run ip6 handler mw up ip fp init evs) = true.
-Proof. intros ip6 handler mw up ip fp evs. apply Server_oblig.c15_ok_partial_gen. Qed.
+          (flat (run ip6 handler mw up ucf ip fp init evs)) = false ->
+  Spec.C15.ok evs (run ip6 handler mw up ucf ip fp init evs) = true.
+Proof. intros ip6 handler mw up ucf ip fp evs. apply Server_oblig.c15_ok_partial_gen. Qed.
